@@ -106,7 +106,7 @@ def run_decoder(facts, summaries, stream, gap, w=16, maxcycles=4000):
     return events, consumed, len(queue)
 
 
-STREAMS = ['I2=', 'A5!', 'I1=7F!', 'O1?', 'K3;', 'K0;', 'I0=5!I1=FF!', 'I2=O1?A5A5!', 'IA=BEEF!O3?K2;', 'K1;K2;', 'I10=1234!', 'O0?O1?']
+STREAMS = ['IC=', 'KD;', 'CDCD!', 'OD?', 'I9=0C!', '89AB!CDEF!', '0123!4567!', 'I2=', 'A5!', 'I1=7F!', 'O1?', 'K3;', 'K0;', 'I0=5!I1=FF!', 'I2=O1?A5A5!', 'IA=BEEF!O3?K2;', 'K1;K2;', 'I10=1234!', 'O0?O1?']
 
 
 def check_decoder(ctx, facts, tier, seed):
@@ -153,13 +153,15 @@ def run_encoder(facts, summaries, value, digits, pattern, maxcycles=600):
     vin, size, start, ready, valid, v = D.wire('vin', 40), D.wire('size', 8), D.wire('start_resp'), D.wire('ready'), D.wire('valid'), D.wire('v', 8)
     D.make('CMDResponse', 'resp', vin, size, start, ready, valid, v, rel=REL)
     D.prepare()
-    D.put(vin, value)
-    D.put(size, digits)
     out = []
     t = 0
     done_at = None
     while t < maxcycles:
         t += 1
+        # value and size become valid in the very cycle the request is raised (as in the wrapper, where the strobe that selects the
+        # output also starts the response); before that the inputs carry something else
+        D.put(vin, value if t >= 2 else (value ^ 0x5A5A5A5A5) & ((1 << 40) - 1))
+        D.put(size, digits if t >= 2 else (digits % 7) + 1)
         D.put(start, 1 if t == 2 else 0)
         D.put(ready, pattern(t))
         D.settle()
